@@ -201,6 +201,29 @@ class ObjectMeta(abc.ABCMeta):
 
 
 # Use ObjectMeta as meta class to inherit schema and type_name property.
+def _copy_reused_symbolic_values(
+    field_args: Dict[str, Any]) -> Dict[str, Any]:
+  """Clones parentless symbolic values that appear more than once in the args."""
+  seen = set()
+
+  def _visit(v):
+    if isinstance(v, base.Symbolic):
+      if v.sym_parent is None:
+        if id(v) in seen:
+          return v.clone()
+        seen.add(id(v))
+      return v
+    if type(v) is list:  # pylint: disable=unidiomatic-typecheck
+      items = [_visit(x) for x in v]
+      return items if any(a is not b for a, b in zip(items, v)) else v
+    if type(v) is dict:  # pylint: disable=unidiomatic-typecheck
+      items = {k: _visit(x) for k, x in v.items()}
+      return items if any(items[k] is not v[k] for k in v) else v
+    return v
+
+  return {k: _visit(v) for k, v in field_args.items()}
+
+
 class Object(base.Symbolic, metaclass=ObjectMeta):
   """Base class for symbolic user classes.
 
@@ -702,6 +725,11 @@ class Object(base.Symbolic, metaclass=ObjectMeta):
         raise TypeError(
             f'{self.__class__.__name__}.__init__() missing {len(missing_args)} '
             f'required {arg_phrase}: {keys_str}.')
+
+    # NOTE: the field values get their parent only after all of them are set,
+    # so a value that is passed more than once would not be recognized as
+    # already placed. Copy the repeated uses here, as an assignment would.
+    field_args = _copy_reused_symbolic_values(field_args)
 
     self._set_raw_attr(
         '_sym_attributes',
